@@ -1,4 +1,4 @@
-import H2.Proofs.ClientRunStep
+import H2.Proofs.ClientRunHdr
 /-!
 # C07 on the full serial client model — groundwork
 
